@@ -83,8 +83,8 @@ Lemma proto_repl_tcp_nonempty E clk ci tc data ci' tc' d :
   proto_repl_tcp E clk ci tc data = Ok (ci', tc', Some d) -> d <> [].
 Proof.
   intros HE. unfold proto_repl_tcp.
-  match goal with |- context [dispatch E clk ci ?i ?t data] =>
-    destruct (dispatch E clk ci i t data) as [[[c2 t2] o]|s] eqn:Hd end; cbn [bind]; [|discriminate].
+  destruct (tcp_identify E tc data) as [tc1 data1].
+  destruct (dispatch E clk ci (t_proto tc1) (Some tc1) data1) as [[[c2 t2] o]|s] eqn:Hd; cbn [bind]; [|discriminate].
   intros H. inversion H; subst. eapply dispatch_nonempty; eassumption.
 Qed.
 
